@@ -117,6 +117,57 @@ Open Scope Q_scope.
 '''
 
 
+def sync_check(rng, n, v):
+    """SynchronizedClock clause on the real classes: a SynchronizedClock following an interpreter shows the time of that
+    interpreter's latest step -- at construction, after every execute_once, and WHILE the listeners of a step are being
+    notified (that is when bound property statecharts read it)."""
+    import genchart
+    import sx
+    from sismic.clock import SynchronizedClock
+    from sismic.interpreter import Interpreter
+    from sismic.model import Event
+    from sismic.clock import SimulatedClock
+    nv, reads = 0, 0
+    for k in range(n):
+        sc = genchart.valid_chart(rng, genchart.Profile(p_contract=0.0, use_tick=False, max_states=8))
+        clock = SimulatedClock()
+        it = Interpreter(sc, clock=clock)
+        sync = SynchronizedClock(it)
+        seen = []
+        cur = {'now': None}
+        it.attach(lambda m: seen.append((m.name, sync.time, cur['now'])))
+        bad = None
+        if sync.time != it.time:
+            bad = ('at construction', sync.time, it.time)
+        for j in range(rng.randint(4, 10)):
+            r = rng.random()
+            if r < 0.4:
+                clock.time += rng.choice([1, 2, 5])
+            elif r < 0.6:
+                it.queue(Event(rng.choice(['e0', 'e1', 'e2'])))
+            else:
+                cur['now'] = clock.time
+                del seen[:]
+                try:
+                    it.execute_once()
+                except Exception:  # noqa
+                    break
+                reads += len(seen) + 1
+                wrong = [x for x in seen if x[1] != cur['now']]
+                if wrong and bad is None:
+                    bad = ('while %r is delivered during the step executed at time %r the synchronized clock shows %r'
+                           % (wrong[0][0], cur['now'], wrong[0][1]))
+                if sync.time != cur['now'] and bad is None:
+                    bad = ('after execute_once at %r' % cur['now'], sync.time)
+        if bad is not None:
+            import sismic.io
+            nv += 1
+            v.violation(dict(property=PROP, clause='a SynchronizedClock does not show the time of the last step of the interpreter '
+                                                    'it follows (C14_sync)', detail=bad, chart_yaml=sismic.io.export_to_yaml(sc)),
+                        tag='sync%d' % k)
+    return nv, reads
+
+
 def main(tier, seed):
     t0 = time.time()
     v = Verdict(PROP)
@@ -182,6 +233,8 @@ def main(tier, seed):
         v.violation(dict(property=PROP, broken='correspondence file did not evaluate', file=fn, log=out),
                     tag='coq', no_input=True)
         n_viol += 1
+    sync_viol, sync_reads = sync_check(random.Random(seed * 77 + 14), 60 if tier == 'quick' else 800, v)
+    n_viol += sync_viol
     if not info.get('build_ok') or not info.get('ok') or info.get('forbidden_tokens'):
         if n_viol == 0:
             v.violation(dict(property=PROP, broken='proof obligations of C14_Props.v do not check',
@@ -205,6 +258,7 @@ def main(tier, seed):
         rule='random operation scripts (3-14 ops + probe reads) over exact rationals with a scripted wall clock; '
              'non-trivial = contains a speed change or a time assignment; distinct = distinct (w0, script)',
         traces_validated_against_impl=len(cases),
+        synchronized_clock_reads_checked=sync_reads,
         atomic_scripts=n_atomic, nonatomic_scripts=n_non, op_mix=opmix, valueerrors_hit=nerr,
         nonatomic_model_differences_informational=informational,
         samples=[dict(w0=str(c['w0']), script=[(o, None if a is None else str(a), str(x), str(y)) for o, a, x, y in c['script']],
@@ -215,6 +269,6 @@ def main(tier, seed):
     write_evidence(PROP, tier, seed, t0, cov,
                    ['wall clock non-decreasing, speeds >= 0 (hypotheses of C14_monotonic)',
                     'time modelled over Q; IEEE rounding of float clocks not modelled',
-                    'SynchronizedClock clause is C13_frozen/C14_sync in the interpreter model'],
+                    'SynchronizedClock: its reading is the followed interpreter\'s _time, frozen per step (theorem C13_frozen of the interpreter model); checked on the real classes at construction, after every step and during listener notification'],
                    n_viol)
     return v.finish()
